@@ -336,6 +336,21 @@ func runC12(c c12Case) kit.Result {
 			if fmt.Sprint(want) != fmt.Sprint(ids2) {
 				return fmt.Errorf("query %q -> %v, but combining the atoms' own answers by the skeleton gives %v", spelled, ids2, want)
 			}
+			// the shortest filters in several spellings, through the child store (only people with child data): letter
+			// case, blanks and redundant parentheses change nothing
+			for _, group := range [][]string{{"true limit none", "TRUE limit none", "true  limit none", "(true) limit none", "true LIMIT NONE", " true limit none"},
+				{"true", "TRUE", "(true)", " true ", "((true))"}, {"false", "False", "(false)"}} {
+				var first string
+				for i, sp := range group {
+					idsS, nS, errS := schema.Staff.QueryIds(tx, sp)
+					got := fmt.Sprintf("%v count %d err %v", idsS, nS, errS != nil)
+					if i == 0 {
+						first = got
+					} else if got != first {
+						return fmt.Errorf("through the child store the filter %q gives %s, its re-spelling %q gives %s", group[0], first, sp, got)
+					}
+				}
+			}
 			return nil
 		})
 	}
